@@ -13,7 +13,7 @@
 From FunV Require Import Skel.Syntax Skel.Lockset Skel.LocksetSound Skel.Guards.
 From FunV Require Import Gen.Skel_WaitGroup Gen.Skel_Collector Gen.Skel_Synchronized Gen.Skel_Atomic
   Gen.Skel_Once Gen.Skel_Map Gen.Skel_Pool Gen.Skel_Queue Gen.Skel_Deque Gen.Skel_Set
-  Gen.Skel_ttlExec Gen.Skel_Wrappers Gen.Skel_Broker.
+  Gen.Skel_limitExec Gen.Skel_ttlExec Gen.Skel_Wrappers Gen.Skel_Broker.
 
 Theorem C13_race_free_WaitGroup : forall s, reachable prog_WaitGroup s -> ~ race s.
 Proof. exact (lockset_sound guards prog_WaitGroup (eq_refl true <: lockset_ok guards prog_WaitGroup = true)). Qed.
@@ -58,6 +58,18 @@ Print Assumptions C13_race_free_Deque.
 Theorem C13_race_free_Set : forall s, reachable prog_Set s -> ~ race s.
 Proof. exact (lockset_sound guards prog_Set (eq_refl true <: lockset_ok guards prog_Set = true)). Qed.
 Print Assumptions C13_race_free_Set.
+
+(* limitExec and the Worker/Producer/Processor/Future Limit wrappers built on it.  SLOW PATH ONLY:
+   everything from mtx.Lock to the (deferred) Unlock, including the read of the cached result
+   for the return value, is checked by the lockset argument.  The lock-free FAST PATH
+   (`if counter.CompareAndSwap(n, n) { return output }`) appears in the skeleton as an
+   `Atomic` instruction marked TRUSTED by the translator (rule 11): that read is ordered after
+   the last write by the atomic store of the counter, because the slow path stops writing once
+   the counter holds n - a value-dependent argument outside lockset reasoning, listed in the
+   trusted base of checks/c13.py and exercised by the -race driver. *)
+Theorem C13_race_free_limitExec_slow_path : forall s, reachable prog_limitExec s -> ~ race s.
+Proof. exact (lockset_sound guards prog_limitExec (eq_refl true <: lockset_ok guards prog_limitExec = true)). Qed.
+Print Assumptions C13_race_free_limitExec_slow_path.
 
 Theorem C13_race_free_ttlExec : forall s, reachable prog_ttlExec s -> ~ race s.
 Proof. exact (lockset_sound guards prog_ttlExec (eq_refl true <: lockset_ok guards prog_ttlExec = true)). Qed.
